@@ -143,6 +143,7 @@ class World:
         self.pid_pool = 0
         self.last_pid = 4999
         self.vanish: set = set()
+        self.call_limit = 3000
 
     def alloc_pid(self, uid: int) -> int:
         if not self.pid_pool:
@@ -167,7 +168,7 @@ class World:
         """A fake call = a point at which an asynchronous signal may be delivered."""
         k = self.calls
         self.calls += 1
-        if k > 3000:
+        if k > self.call_limit:
             raise Hang()
         sigs = self.mid.pop(k, None)
         if sigs:
@@ -194,6 +195,10 @@ class World:
                     self.trace.append(["die", i, p.uid])
         for sg in ev.get("sig", ()):
             self.deliver(sg)
+        # a burst of file-change events (a branch switch, a formatter run): one reload-all request per event
+        for _ in range(int(ev.get("burst", 0) or 0)):
+            self.deliver("FC")
+        self.call_limit = 3000 + 40 * int(ev.get("burst", 0) or 0) * (len({p.slot for p in self.procs}) + 1)
         self.calls = 0
         self.mid = {}
         self.vanish = set(ev.get("vanish", ()))
